@@ -2,6 +2,7 @@ import CJ.Lemmas.Config
 import CJ.Lemmas.Liveness
 import CJ.Model.Covert
 import CJ.Gen.C19Guards
+import CJ.Gen.C19Sources
 /-!
 # C19 — accepted configurations run housekeeping safely; a bad reload changes nothing
 
@@ -396,6 +397,62 @@ theorem entry_enforced_among_any_others (cidr : String → Outcome Net) (re : St
     exact (allowlist_enforced_iff cidr re ifaces raw parsed h hne contains ip).mpr ⟨s, by rw [hl]; simp, n, hn, hc⟩
   · intro hl r host hr hm
     exact (domains_enforced_iff cidr re ifaces raw parsed h matchString host).mpr ⟨s, by rw [hl]; simp, r, hr, hm⟩
+
+/-! ### the phantom blocklist at the outcome of the ingest, for every registration source -/
+
+/-- **A blocklisted phantom is refused whatever the source of the registration**, provided every source that
+`ValidateRegistration` exempts from its early check is covered by the late check of `ingestRegistration`. -/
+theorem phantom_entry_enforced_for_every_source (exemptEarly checkedLate : List Nat)
+    (h : ∀ s ∈ exemptEarly, s ∈ checkedLate) (src : Nat) :
+    phantomAdmitted exemptEarly checkedLate src true = false := by
+  unfold phantomAdmitted
+  cases he : exemptEarly.contains src with
+  | false => simp
+  | true =>
+    have hm : src ∈ checkedLate := h src (List.contains_iff_mem.mp he)
+    have hl : checkedLate.contains src = true := List.contains_iff_mem.mpr hm
+    rw [hl]; simp
+
+/-- … and that is exactly what is needed: if some source is exempted early and not checked late, a
+registration from that source with a blocklisted phantom gets through -/
+theorem exempt_unchecked_source_admitted (exemptEarly checkedLate : List Nat) (src : Nat)
+    (he : src ∈ exemptEarly) (hl : src ∉ checkedLate) :
+    phantomAdmitted exemptEarly checkedLate src true = true := by
+  unfold phantomAdmitted
+  have h1 : exemptEarly.contains src = true := List.contains_iff_mem.mpr he
+  have h2 : checkedLate.contains src = false := by
+    cases hc : checkedLate.contains src with
+    | false => rfl
+    | true => exact absurd (List.contains_iff_mem.mp hc) hl
+  rw [h1, h2]; simp
+
+/-- the source sets read off the code: every source exempted early is checked late, the late check precedes
+`AddRegistration`, and a number outside the enum is not exempted -/
+theorem exempt_early_checked_late :
+    (∀ s ∈ CJ.Gen.C19Sources.exemptEarly, s ∈ CJ.Gen.C19Sources.checkedLate) ∧
+    CJ.Gen.C19Sources.lateBeforeAdd = true ∧
+    CJ.Gen.C19Sources.outsideEnum ∉ CJ.Gen.C19Sources.exemptEarly ∧
+    (∀ s ∈ CJ.Gen.C19Sources.exemptEarly, s ∈ CJ.Gen.C19Sources.sources.map (·.2)) := by decide
+
+/-- **Every phantom-blocklist entry is enforced at the outcome of the ingest, for every source** (the enum
+values and every other number), with the source sets of the code -/
+theorem phantom_entry_enforced_for_every_source_extracted (src : Nat) :
+    phantomAdmitted CJ.Gen.C19Sources.exemptEarly CJ.Gen.C19Sources.checkedLate src true = false :=
+  phantom_entry_enforced_for_every_source _ _ exempt_early_checked_late.1 src
+
+/-- from the configured entry to the outcome: in an accepted configuration a registration from any source
+whose phantom lies inside a configured phantom-blocklist entry does not get past the checks -/
+theorem phantom_entry_enforced_at_ingest (cidr : String → Outcome Net) (re : String → Outcome Pat)
+    (ifaces : Option (List Net)) (raw : Raw) (parsed : Parsed Net Pat)
+    (h : parseBlocklists cidr re ifaces raw = .ok parsed)
+    (s : String) (hs : s ∈ raw.phantom) (n : Net) (hn : cidr s = .ok n)
+    (contains : Net → IP → Bool) (ip : IP) (hc : contains n ip = true) (src : Nat) :
+    phantomAdmitted CJ.Gen.C19Sources.exemptEarly CJ.Gen.C19Sources.checkedLate src
+      (parsed.phantomBlocked contains ip) = false := by
+  have hb : parsed.phantomBlocked contains ip = true :=
+    (phantom_enforced_iff cidr re ifaces raw parsed h contains ip).mpr ⟨s, hs, n, hn, hc⟩
+  rw [hb]
+  exact phantom_entry_enforced_for_every_source_extracted src
 
 /-- the address policy C06's admission model is evaluated with, built from the parsed configuration -/
 def toPolicy (p : Parsed Net Pat) : CJ.Covert.Policy Net Pat :=
